@@ -234,14 +234,14 @@ def select_total(ctx, rule='C12.select-total'):
             l = op_local(s['rv']['ops'][0])
             if l is None or fn.locals[l]['ty'] not in HANDLE_TYS:
                 continue
-            h = du.root_of(l)
+            hs_sel = du.roots_of(l)
             nsel += 1
-            returned.add(h)
+            returned |= hs_sel
             validated = set()
             for (vb, vt, hs) in vedges:
                 if _behind_edge(fn, bb, (vb, vt)):
                     validated |= hs
-            if h in validated:
+            if hs_sel <= validated:
                 res.append(ok(rule, 'header selected at %s only behind its own successful validity test' % fn.loc(bb, si), sites=1))
             else:
                 res.append(bad(rule, '%s | header selected without its own validation' % fn.qual,
